@@ -7,50 +7,52 @@ namespace XrayModel.Conv
 theorem hex_roundtrip : ∀ c : Fin 32, hex4 48 48 (hexDigit (c.val / 16)) (hexDigit (c.val % 16)) = some c.val := by
   decide
 
-/-- reading one escaped character -/
-theorem unescape_char (c : Nat) (R acc : List Nat) :
-    unescapeBody (escapeChar c ++ R) acc = unescapeBody R (c :: acc) := by
+theorem read_char (c : Nat) (R acc : List Nat) : readStr (escapeChar c ++ R) acc = readStr R (c :: acc) := by
   unfold escapeChar
   by_cases h34 : c = 34
-  · subst h34; simp only [if_true, if_false, List.cons_append, List.nil_append, reduceCtorEq]; rw [unescapeBody.eq_def]; simp [simpleEscape]
+  · subst h34; simp only [if_true, if_false, List.cons_append, List.nil_append, reduceCtorEq]; rw [readStr.eq_def]; simp [simpleEscape]
   by_cases h92 : c = 92
-  · subst h92; simp only [if_true, if_false, List.cons_append, List.nil_append, reduceCtorEq]; rw [unescapeBody.eq_def]; simp [simpleEscape]
+  · subst h92; simp only [if_true, if_false, List.cons_append, List.nil_append, reduceCtorEq]; rw [readStr.eq_def]; simp [simpleEscape]
   by_cases h8 : c = 8
-  · subst h8; simp only [if_true, if_false, List.cons_append, List.nil_append, reduceCtorEq]; rw [unescapeBody.eq_def]; simp [simpleEscape]
+  · subst h8; simp only [if_true, if_false, List.cons_append, List.nil_append, reduceCtorEq]; rw [readStr.eq_def]; simp [simpleEscape]
   by_cases h9 : c = 9
-  · subst h9; simp only [if_true, if_false, List.cons_append, List.nil_append, reduceCtorEq]; rw [unescapeBody.eq_def]; simp [simpleEscape]
+  · subst h9; simp only [if_true, if_false, List.cons_append, List.nil_append, reduceCtorEq]; rw [readStr.eq_def]; simp [simpleEscape]
   by_cases h10 : c = 10
-  · subst h10; simp only [if_true, if_false, List.cons_append, List.nil_append, reduceCtorEq]; rw [unescapeBody.eq_def]; simp [simpleEscape]
+  · subst h10; simp only [if_true, if_false, List.cons_append, List.nil_append, reduceCtorEq]; rw [readStr.eq_def]; simp [simpleEscape]
   by_cases h12 : c = 12
-  · subst h12; simp only [if_true, if_false, List.cons_append, List.nil_append, reduceCtorEq]; rw [unescapeBody.eq_def]; simp [simpleEscape]
+  · subst h12; simp only [if_true, if_false, List.cons_append, List.nil_append, reduceCtorEq]; rw [readStr.eq_def]; simp [simpleEscape]
   by_cases h13 : c = 13
-  · subst h13; simp only [if_true, if_false, List.cons_append, List.nil_append, reduceCtorEq]; rw [unescapeBody.eq_def]; simp [simpleEscape]
+  · subst h13; simp only [if_true, if_false, List.cons_append, List.nil_append, reduceCtorEq]; rw [readStr.eq_def]; simp [simpleEscape]
   by_cases hlt : c < 32
   · have hh := hex_roundtrip ⟨c, hlt⟩
     simp only at hh
     simp only [h34, h92, h8, h9, h10, h12, h13, hlt, if_false, if_true, List.cons_append, List.nil_append]
-    rw [unescapeBody.eq_def]
+    rw [readStr.eq_def]
     simp only [show ¬ (92 = 34) by decide, if_false, if_true, hh]
     have : ¬ (55296 ≤ c ∧ c < 56320) := by omega
     have h2 : ¬ (56320 ≤ c ∧ c < 57344) := by omega
     simp [this, h2]
   · simp only [h34, h92, h8, h9, h10, h12, h13, hlt, if_false, List.cons_append, List.nil_append]
-    rw [unescapeBody.eq_def]
+    rw [readStr.eq_def]
     simp [h34, h92, hlt]
 
-theorem unescape_body (s : List Nat) : ∀ acc, unescapeBody (escapeBody s ++ [34]) acc = some (acc.reverse ++ s) := by
+theorem read_body (s : List Nat) : ∀ acc R, readStr (escapeBody s ++ 34 :: R) acc = some (acc.reverse ++ s, R) := by
   induction s with
-  | nil => intro acc; rw [unescapeBody.eq_def]; simp [escapeBody]
+  | nil => intro acc R; rw [readStr.eq_def]; simp [escapeBody]
   | cons c cs ih =>
-    intro acc
+    intro acc R
     simp only [escapeBody, List.append_assoc]
-    rw [unescape_char, ih]
+    rw [read_char, ih]
     simp
 
+theorem escapeStr_append (s R : List Nat) : escapeStr s ++ R = 34 :: (escapeBody s ++ 34 :: R) := by
+  simp [escapeStr]
+
 theorem unescape_escape_str (s : List Nat) : unescapeStr (escapeStr s) = some s := by
-  unfold unescapeStr escapeStr
-  simp only
-  rw [unescape_body]; simp
+  have := read_body s [] []
+  unfold unescapeStr
+  rw [show escapeStr s = 34 :: (escapeBody s ++ 34 :: []) by simp [escapeStr]]
+  simp only [this, List.reverse_nil, List.nil_append]
 
 /-- the escaped text is printable ASCII-safe: no raw control character, no raw quote or backslash inside -/
 theorem escapeChar_clean (c : Nat) : ∀ x ∈ escapeChar c, 32 ≤ x := by
